@@ -1407,11 +1407,30 @@ class AggVal:
         self.fields = dict(fields)
 
 
-def agg_run(tu, f, this_state, other=None, other_did=None, args=None, depth=0):
+class PairVal:
+    """a std::pair of two numbers held by value during an evaluation (std::make_pair, a two-argument construction, a copy)"""
+    def __init__(self, first, second):
+        self.first, self.second = first, second
+
+
+def unwrapped(n):
+    """the expression under casts, parentheses and temporary wrappers"""
+    n = strip_casts(n)
+    while n is not None and n["k"] in ("ParenExpr", "ExprWithCleanups", "MaterializeTemporaryExpr", "CXXBindTemporaryExpr") and kids(n):
+        n = strip_casts(kids(n)[0])
+    return n
+
+
+def agg_run(tu, f, this_state, other=None, other_did=None, args=None, depth=0, stubs=None):
     """evaluates the member function f of Aggregate exactly (counts and min/max are integers, mean and nvar rationals) on the
     object state `this_state`; the Aggregate argument (declaration other_did) has the state `other`.  Whole objects are
     values (AggVal): constructions, copies, `*this = ...`, member functions and operators called on *this / on a local
     object are followed; an object that escapes into anything else makes its fields unknown (None), never "unchanged".
+    A std::pair of two numbers is a value too (PairVal): std::make_pair / a two-argument construction build it, .first and
+    .second read it, `std::tie(x, y) = pair` stores its components into the two objects named (the right side is evaluated
+    completely before the first store, as the call of operator= demands).
+    stubs: {declaration id of a member function: value}: a call of that function is not followed but yields the value (used
+    to see into which field the result of a helper flows).
     -> (return value, final fields, skeleton)"""
     pre = dict(this_state)
     if depth > 4:
@@ -1451,13 +1470,13 @@ def agg_run(tu, f, this_state, other=None, other_did=None, args=None, depth=0):
         sub = None
         if fields is not None and callee is not None and callee.body is not None and len(rest) == len(callee.params) and len(rest) <= 1:
             if not rest:
-                sub = agg_run(tu, callee, fields, depth=depth + 1)
+                sub = agg_run(tu, callee, fields, depth=depth + 1, stubs=stubs)
             elif "Aggregate" in (callee.params[0].get("ty") or ""):
                 of = obj_fields(rest[0], sk)
                 if of is not None:
-                    sub = agg_run(tu, callee, fields, of, callee.params[0]["did"], depth=depth + 1)
+                    sub = agg_run(tu, callee, fields, of, callee.params[0]["did"], depth=depth + 1, stubs=stubs)
             else:
-                sub = agg_run(tu, callee, fields, args={callee.params[0]["did"]: sk.ev(rest[0])}, depth=depth + 1)
+                sub = agg_run(tu, callee, fields, args={callee.params[0]["did"]: sk.ev(rest[0])}, depth=depth + 1, stubs=stubs)
         if sub is None:
             # not followed: whatever the callee may write is unknown from here on
             if is_this_object(obj):
@@ -1476,6 +1495,27 @@ def agg_run(tu, f, this_state, other=None, other_did=None, args=None, depth=0):
     def raw(e, sk):
         """sees every expression before any wrapper is looked through"""
         k = e["k"]
+        if k in CTORS and (e.get("callee") or {}).get("record") == "std::pair":
+            a_ = [x for x in kids(e) if x is not None]
+            if len(a_) == 2:
+                return PairVal(sk.ev(a_[0]), sk.ev(a_[1]))
+            if len(a_) == 1:
+                v = sk.ev(a_[0])                              # copy / move construction
+                return PairVal(v.first, v.second) if isinstance(v, PairVal) else None
+            return None
+        if stubs and "callee" in e and k not in CTORS and e["callee"].get("did") in stubs:
+            return stubs[e["callee"]["did"]]
+        if k == "CallExpr" and "callee" in e and e["callee"].get("qname") == "std::make_pair" and len(kids(e)) == 2:
+            return PairVal(sk.ev(kids(e)[0]), sk.ev(kids(e)[1]))
+        if k == "CXXOperatorCallExpr" and e.get("op") == "=" and "callee" in e and e["callee"].get("record") == "std::tuple" and len(kids(e)) == 2:
+            tie = unwrapped(kids(e)[0])
+            if tie is not None and tie["k"] == "CallExpr" and "callee" in tie and tie["callee"].get("qname") == "std::tie":
+                targets = [x for x in kids(tie) if x is not None]
+                v = sk.ev(kids(e)[1])
+                vals = [v.first, v.second] if isinstance(v, PairVal) and len(targets) == 2 else [None] * len(targets)
+                for t_, x_ in zip(targets, vals):
+                    sk.store(sk.lvalue(t_), sk.conv(x_, t_.get("ty")))     # a target that is not modelled: lost write, cannot decide
+                return None
         if k in CTORS and of_aggregate(e.get("callee") or {}):
             if len(kids(e)) == 5:
                 vals = [sk.ev(a_) for a_ in kids(e)]
@@ -1534,6 +1574,9 @@ def agg_run(tu, f, this_state, other=None, other_did=None, args=None, depth=0):
                 return NotImplemented
             if is_other(kids(e)[0], sk, e.get("arrow")):
                 return (other or {}).get(e["member"])
+            if e.get("owner") == "std::pair" and e.get("member") in ("first", "second"):
+                v = sk.ev(kids(e)[0])                         # component of a pair (a local object or the result of a call)
+                return getattr(v, e["member"]) if isinstance(v, PairVal) else None
             v = sk.ev(kids(e)[0]) if ref_of(kids(e)[0]) is not None else None
             if isinstance(v, AggVal):
                 return v.fields.get(e["member"])              # field of a local object
@@ -1547,21 +1590,96 @@ def agg_run(tu, f, this_state, other=None, other_did=None, args=None, depth=0):
 
 def check_aggregate_T(ck, tu, T):
     fns = {f.name: f for f in tu.find(record=AG) if f.rtargs == [T]}
-    ck.require({"operator+", "operator+=", "combine_means", "combine_variance", "add"} <= set(fns), "Aggregate<%s> members not instantiated" % T)
+    ck.require({"operator+", "operator+=", "add"} <= set(fns), "Aggregate<%s> members not instantiated" % T)
     # sample states: (count, mean, nvar, min, max) of *this and of the argument
     states = [(dict(count_=3, mean_=Fraction(7, 2), nvar_=Fraction(5), min_=2, max_=9), dict(count_=5, mean_=Fraction(-2), nvar_=Fraction(11, 3), min_=5, max_=7)),
               (dict(count_=3, mean_=Fraction(1, 3), nvar_=Fraction(2), min_=6, max_=8), dict(count_=4, mean_=Fraction(9), nvar_=Fraction(7), min_=1, max_=20))]
 
-    def helper(name, mine, theirs):
-        h = fns[name]
+    # sample points of the pooled formulas: (count, mean, nvar) of *this and of the argument
+    pts = [(3, Fraction(7, 2), Fraction(5), 5, Fraction(-2), Fraction(11, 3)), (1, Fraction(2), Fraction(0), 4, Fraction(9), Fraction(7)),
+           (10, Fraction(1, 3), Fraction(2), 1, Fraction(100), Fraction(0)), (2, Fraction(5), Fraction(1), 2, Fraction(5), Fraction(3))]
+
+    def pooled(fld, n1, m1, v1, n2, m2, v2):
+        if fld == "mean_":
+            return (m1 * n1 + m2 * n2) / (n1 + n2)
+        d = m1 - m2
+        return v1 + v2 + d * d * n1 * n2 / (n1 + n2)
+
+    def component(src, ret):
+        if isinstance(src[2], tuple):
+            return ret.fields.get(src[2][1]) if isinstance(ret, AggVal) else None
+        return getattr(ret, src[2]) if src[2] is not None and isinstance(ret, PairVal) else (ret if src[2] is None else None)
+
+    # ---- the helpers that supply the combined mean_ and nvar_: {field: (label, function, component of its result or None)}.
+    # combine_means / combine_variance where they exist; otherwise found by data flow: every member function with one
+    # Aggregate parameter that operator+ / operator+= call is replaced by a marker value (one per component of a std::pair
+    # result) and both operators are evaluated: the helper whose marker arrives unchanged in mean_ (nvar_) of both results is
+    # the one that supplies the combined mean (sum of squared deviations).  No such helper at all: the fields of the object
+    # operator+ returns stand in for it.  Anything else: cannot decide.
+    def find_sources():
+        if "combine_means" in fns and "combine_variance" in fns:
+            return {"mean_": ("combine_means", fns["combine_means"], None), "nvar_": ("combine_variance", fns["combine_variance"], None)}
+        cands = {}
+        for op in (fns["operator+"], fns["operator+="]):
+            for x in op.nodes():
+                h = tu.by_did.get(x["callee"].get("did")) if "callee" in x and x["k"] not in CTORS else None
+                if h is not None and h.record == AG and h.rtargs == [T] and h.kind == "method" and h.body is not None and \
+                        len(h.params) == 1 and "Aggregate" in (h.params[0].get("ty") or ""):
+                    cands[h.did] = h
+        marks, stubs = {}, {}
+        for n_, h in enumerate(sorted(cands.values(), key=lambda h_: h_.did)):
+            rt = bare(h.d.get("ret"))
+            m1, m2 = Fraction(987654321 + 2 * n_, 7), Fraction(123456789 + 2 * n_, 11)
+            if rt in FTY or (rt in ITY and rt != "bool"):
+                stubs[h.did] = m1
+                marks[m1] = (h.name, h, None)
+            elif rt.replace(" ", "").startswith("std::pair<"):
+                stubs[h.did] = PairVal(m1, m2)
+                marks[m1] = (h.name + ".first", h, "first")
+                marks[m2] = (h.name + ".second", h, "second")
+        if not stubs:
+            # no helper of its own (the formulas stand in the operators, or the normaliser has inlined a new helper): the
+            # mean_ / nvar_ of the object operator+ returns are the combined quantities that are judged
+            return {fld: ("operator+", fns["operator+"], ("field", fld)) for fld in ("mean_", "nvar_")}
+        mine, theirs = states[0]
+        plus, pe = fns["operator+"], fns["operator+="]
+        ret, _, _ = agg_run(tu, plus, mine, theirs, plus.params[0]["did"], stubs=stubs)
+        _, final, _ = agg_run(tu, pe, mine, theirs, pe.params[0]["did"], stubs=stubs)
+        out = {}
+        for fld in ("mean_", "nvar_"):
+            a_ = ret.fields.get(fld) if isinstance(ret, AggVal) else None
+            b_ = final.get(fld)
+            found = [x for x in (a_, b_) if isinstance(x, Fraction) and x in marks]
+            if len(found) == 2 and a_ == b_:
+                out[fld] = marks[a_]
+                continue
+            # the two operators do not take the quantity from the same place: the one place among them that does compute the
+            # pooled quantity on every sample point is the helper, and the operator that does not use it is judged against it
+            good = []
+            for x in sorted(set(found)):
+                src = marks[x]
+                vals = [component(src, agg_run(tu, src[1], dict(count_=n1, mean_=m1, nvar_=v1, min_=0, max_=0), dict(count_=n2, mean_=m2, nvar_=v2, min_=0, max_=0),
+                                               src[1].params[0]["did"])[0]) for (n1, m1, v1, n2, m2, v2) in pts]
+                if all(numeric(v_) and v_ == pooled(fld, *pt) for v_, pt in zip(vals, pts)):
+                    good.append(src)
+            if len(good) != 1:
+                raise dtable.Undecidable("%s: which helper supplies the combined %s of operator+ and operator+= is not understood" % (plus.loc, fld))
+            out[fld] = good[0]
+        return out
+    sources = find_sources()
+    labels = [sources["mean_"][0], sources["nvar_"][0]]
+
+    def helper(fld, mine, theirs):
+        label, h, _ = sources[fld]
         ret, _, sk = agg_run(tu, h, mine, theirs, h.params[0]["did"])
+        ret = component(sources[fld], ret)
         if not numeric(ret):
-            raise dtable.Undecidable("%s: %s cannot be evaluated on a sample state" % (h.loc, name))
+            raise dtable.Undecidable("%s: %s cannot be evaluated on a sample state" % (h.loc, label))
         return ret
 
     def wanted(mine, theirs):
         return {"count_": mine["count_"] + theirs["count_"], "min_": min(mine["min_"], theirs["min_"]), "max_": max(mine["max_"], theirs["max_"]),
-                "mean_": helper("combine_means", mine, theirs), "nvar_": helper("combine_variance", mine, theirs)}
+                "mean_": helper("mean_", mine, theirs), "nvar_": helper("nvar_", mine, theirs)}
 
     # ---- pre-state purity of operator+=: evaluated on a sample state; a field that is read after it was overwritten with
     # another value AND a combined quantity that differs from the one computed on the pre-state
@@ -1598,8 +1716,8 @@ def check_aggregate_T(ck, tu, T):
                 k_ = wrong[0]
                 ck.violation("PLUS-COMBINES", f.qname, "%s:%s" % (T, k_),
                              "%s of (count %d, min %d, max %d) and (count %d, min %d, max %d) leaves %s = %s; it must be %s (count added, mean and variance "
-                             "through combine_means / combine_variance of the argument on the pre-state, min and max of both)"
-                             % (opname, mine["count_"], mine["min_"], mine["max_"], theirs["count_"], theirs["min_"], theirs["max_"], k_, result.get(k_), want[k_]), f.loc)
+                             "through %s / %s of the argument on the pre-state, min and max of both)"
+                             % (opname, mine["count_"], mine["min_"], mine["max_"], theirs["count_"], theirs["min_"], theirs["max_"], k_, result.get(k_), want[k_], labels[0], labels[1]), f.loc)
                 return
             if undecided:
                 raise dtable.Undecidable("%s: %s: the resulting %s cannot be evaluated on a sample state" % (f.loc, opname, undecided[0]))
@@ -1608,39 +1726,34 @@ def check_aggregate_T(ck, tu, T):
         ck.guarded(lambda opname=opname: combines(opname))
 
     # ---- formulas of the helpers, exactly, on sample points
-    pts = [(3, Fraction(7, 2), Fraction(5), 5, Fraction(-2), Fraction(11, 3)), (1, Fraction(2), Fraction(0), 4, Fraction(9), Fraction(7)),
-           (10, Fraction(1, 3), Fraction(2), 1, Fraction(100), Fraction(0)), (2, Fraction(5), Fraction(1), 2, Fraction(5), Fraction(3))]
-
-    def formula(name):
-        f = fns[name]
+    def formula(fld):
+        name, f, _ = sources[fld]
         for (n1, m1, v1, n2, m2, v2) in pts:
             mine = dict(count_=n1, mean_=m1, nvar_=v1, min_=0, max_=0)
             theirs = dict(count_=n2, mean_=m2, nvar_=v2, min_=0, max_=0)
             got, _, sk = agg_run(tu, f, mine, theirs, f.params[0]["did"])
-            if name == "combine_means":
-                want = (m1 * n1 + m2 * n2) / (n1 + n2)
-            else:
-                d = m1 - m2
-                want = v1 + v2 + d * d * n1 * n2 / (n1 + n2)
+            got = component(sources[fld], got)
+            want = pooled(fld, n1, m1, v1, n2, m2, v2)
             if not numeric(got):
                 raise dtable.Undecidable("%s: return expression is not plain arithmetic" % f.loc)
             if got != want:
                 ck.violation("COMBINE-FORMULA", f.qname, "%s:%s" % (T, name),
                              "%s is not the pooled %s: for counts (%d,%d), means (%s,%s) it yields %s instead of %s"
-                             % (name, "mean" if name == "combine_means" else "sum of squared deviations", n1, n2, m1, m2, got, want), f.loc)
+                             % (name, "mean" if fld == "mean_" else "sum of squared deviations", n1, n2, m1, m2, got, want), f.loc)
                 return
         ck.ok("COMBINE-FORMULA", "Aggregate<%s>::%s" % (T, name), "equals the pooled formula exactly on %d rational sample points (identity test)" % len(pts))
-    for name in ("combine_means", "combine_variance"):
-        ck.guarded(lambda name=name: formula(name))
+    for fld in ("mean_", "nvar_"):
+        ck.guarded(lambda fld=fld: formula(fld))
 
     # ---- zero guards of the shared denominator: the helpers are evaluated with one and with two empty operands
-    def divguard(name):
-        f = fns[name]
+    def divguard(fld):
+        name, f, _ = sources[fld]
         empty = dict(count_=0, mean_=Fraction(0), nvar_=Fraction(0), min_=10 ** 9, max_=-10 ** 9)
         full = dict(count_=4, mean_=Fraction(5, 2), nvar_=Fraction(3), min_=1, max_=6)
         for mine, theirs, what in ((empty, empty, "two empty aggregates"), (empty, full, "an empty aggregate and a filled argument"),
                                    (full, empty, "a filled aggregate and an empty argument")):
             got, _, sk = agg_run(tu, f, dict(mine), dict(theirs), f.params[0]["did"])
+            got = component(sources[fld], got)
             div0 = [x for x in sk.log if x[0] == "div0"]
             if div0:
                 d = div0[0][1]
@@ -1650,8 +1763,8 @@ def check_aggregate_T(ck, tu, T):
             if not numeric(got):
                 raise dtable.Undecidable("%s: %s cannot be evaluated for %s" % (f.loc, name, what))
         ck.ok("DIV-GUARD", "Aggregate<%s>::%s" % (T, name), "count_ + other.count_ cannot be zero at the division (evaluated with one and with two empty operands)")
-    for name in ("combine_means", "combine_variance"):
-        ck.guarded(lambda name=name: divguard(name))
+    for fld in ("mean_", "nvar_"):
+        ck.guarded(lambda fld=fld: divguard(fld))
 
     # ---- add(): count incremented before it divides: add(value) evaluated on the empty aggregate
     def addorder():
